@@ -343,6 +343,35 @@ theorem equivalence_groups_not_transitive :
     overlappingGroups [a, b, c, d, e] = [[a, d, e, c], [b, c, e, d]] ∧
     filterResults [[0, 1]] [a, b, c, d, e] = some [a, b] := by decide
 
+/-- the passes over a whole record (groups outermost, genes inside, as the code loops) give every gene
+    exactly what it would get alone: no gene's result depends on the hits of any other gene -/
+theorem equivalence_filter_is_per_gene (eqs : List (List Int)) (genes : List (List FHit)) :
+    filterRecordPasses eqs genes = genes.map fun hits => eqs.foldl filterPass hits := by
+  induction eqs generalizing genes with
+  | nil => simp [filterRecordPasses]
+  | cons e es ih =>
+    have := ih (genes.map fun hits => filterPass hits e)
+    simp only [filterRecordPasses, List.foldl_cons] at this ⊢
+    rw [this, List.map_map]
+    rfl
+
+/-- … including the assertion: the record-level call succeeds iff every gene's own call does, and then
+    returns the per-gene results in gene order -/
+theorem equivalence_filter_record (eqs : List (List Int)) (genes : List (List FHit)) :
+    filterRecord eqs genes = genes.mapM (filterResults eqs) := by
+  simp only [filterRecord, equivalence_filter_is_per_gene]
+  induction genes with
+  | nil => simp
+  | cons g gs ih =>
+    simp only [List.map_cons, List.zip_cons_cons, List.any_cons, List.mapM_cons, filterResults]
+    by_cases h1 : ((List.foldl filterPass g eqs).isEmpty && !g.isEmpty) = true
+    · simp [h1]
+    · simp only [h1, Bool.false_or, Bool.false_eq_true, if_false, Option.bind_eq_bind, Option.bind_some,
+        Option.pure_def]
+      split at ih
+      · next h2 => rw [if_pos h2, ← ih]; simp
+      · next h2 => rw [if_neg h2, ← ih]; simp
+
 /-! ## docking domains -/
 
 /-- docking-domain predictions survive exactly when they touch the first or last 50 residues -/
